@@ -79,6 +79,10 @@ type DefaultFanController struct {
 
 	// offset applied to the actual minPwm of the fan to ensure "neverStops" constraint
 	minPwmOffset int
+
+	// guards stats and lastSetPwm, which are also accessed from outside of the
+	// control loop (rpm monitor, statistics collectors)
+	mu sync.Mutex
 }
 
 func NewFanController(
@@ -108,7 +112,21 @@ func (f *DefaultFanController) GetFanId() string {
 }
 
 func (f *DefaultFanController) GetStatistics() FanControllerStatistics {
+	f.mu.Lock()
+	defer f.mu.Unlock()
 	return f.stats
+}
+
+func (f *DefaultFanController) getLastSetPwm() *int {
+	f.mu.Lock()
+	defer f.mu.Unlock()
+	return f.lastSetPwm
+}
+
+func (f *DefaultFanController) setLastSetPwm(pwm *int) {
+	f.mu.Lock()
+	defer f.mu.Unlock()
+	f.lastSetPwm = pwm
 }
 
 func (f *DefaultFanController) Run(ctx context.Context) error {
@@ -373,8 +391,8 @@ func (f *DefaultFanController) measureRpm(fan fans.Fan) {
 func (f *DefaultFanController) getPwm() (int, error) {
 	if f.fan.Supports(fans.FeaturePwmSensor) {
 		return f.fan.GetPwm()
-	} else if f.lastSetPwm != nil {
-		return *f.lastSetPwm, nil
+	} else if lastSetPwm := f.getLastSetPwm(); lastSetPwm != nil {
+		return *lastSetPwm, nil
 	} else {
 		return f.fan.GetMinPwm(), nil
 	}
@@ -428,8 +446,8 @@ func (f *DefaultFanController) restorePwmEnabled() {
 // returns ErrFanStalledAtMaxPwm if no rpm is detected even at fan.maxPwm
 func (f *DefaultFanController) calculateTargetPwm() (int, error) {
 	lastSetPwm := 0
-	if f.lastSetPwm != nil {
-		lastSetPwm = *(f.lastSetPwm)
+	if p := f.getLastSetPwm(); p != nil {
+		lastSetPwm = *p
 	} else {
 		if f.fan.Supports(fans.FeaturePwmSensor) {
 			pwm, err := f.getPwm()
@@ -490,7 +508,8 @@ func (f *DefaultFanController) calculateTargetPwm() (int, error) {
 		// make sure fans never stop by validating the current RPM
 		// and adjusting the target PWM value upwards if necessary
 		shouldNeverStop := fan.ShouldNeverStop()
-		lastSetTargetEqualsNewTarget := f.lastSetPwm != nil && *f.lastSetPwm == target
+		lastSetPwmPtr := f.getLastSetPwm()
+		lastSetTargetEqualsNewTarget := lastSetPwmPtr != nil && *lastSetPwmPtr == target
 		if shouldNeverStop && lastSetTargetEqualsNewTarget {
 			avgRpm := fan.GetRpmAvg()
 			// the moving average approaches 0 only asymptotically,
@@ -525,12 +544,14 @@ func (f *DefaultFanController) ensureNoThirdPartyIsMessingWithUs() {
 		// if we cannot read the PWM value, so we also cannot check if third party changed the PWM value
 		return
 	}
-	if f.lastSetPwm != nil && f.pwmMap != nil {
-		lastSetPwm := *(f.lastSetPwm)
+	if lastSetPwmPtr := f.getLastSetPwm(); lastSetPwmPtr != nil && f.pwmMap != nil {
+		lastSetPwm := *lastSetPwmPtr
 		expected := f.applyPwmMapping(f.findClosestDistinctTarget(lastSetPwm))
 		if currentPwm, err := f.fan.GetPwm(); err == nil {
 			if currentPwm != expected {
+				f.mu.Lock()
 				f.stats.UnexpectedPwmValueCount += 1
+				f.mu.Unlock()
 				ui.Warning("PWM of %s was changed by third party! Last set PWM value was: %d but is now: %d",
 					f.fan.GetId(), expected, currentPwm)
 			}
@@ -544,7 +565,7 @@ func (f *DefaultFanController) setPwm(target int) (err error) {
 	closestExpected := f.applyPwmMapping(closestTarget)
 
 	ui.Debug("Setting PWM of %s to %d, found closest distinct PWM value at %d, applying PWM Map yields %d", f.fan.GetId(), target, closestTarget, closestExpected)
-	f.lastSetPwm = &target
+	f.setLastSetPwm(&target)
 	// if we can read the PWM value, we can check if the fan is already at the target value
 	// and avoid unnecessary setPwm calls
 	if f.fan.Supports(fans.FeaturePwmSensor) {
@@ -685,8 +706,10 @@ func (f *DefaultFanController) updateDistinctPwmValues() {
 
 func (f *DefaultFanController) increaseMinPwmOffset() {
 	f.minPwmOffset += 1
+	f.mu.Lock()
 	f.stats.MinPwmOffset = f.minPwmOffset
 	f.stats.IncreasedMinPwmCount += 1
+	f.mu.Unlock()
 }
 
 func (f *DefaultFanController) applyPwmMapping(target int) int {
